@@ -459,13 +459,16 @@ class HostConnection(object):
             with self._stream_available_condition:
                 self._stream_available_condition.notify()
 
-        if connection.is_closed and not connection.is_defunct and \
+        # read once: _replace() may close a drained connection at any moment
+        is_closed = connection.is_closed
+        is_defunct = connection.is_defunct
+        if is_closed and not is_defunct and \
                 connection.orphaned_threshold_reached and connection is not self._connection:
             # a replaced connection that _replace() (or the trash) closed once only orphaned
             # streams were left on it: that is not a connection failure
             return
 
-        if connection.is_defunct or connection.is_closed:
+        if is_defunct or is_closed:
             if connection.signaled_error and not self.shutdown_on_error:
                 return
 
